@@ -1,7 +1,7 @@
 (* C34 -- soundness of the checker: a row accepted by entry_ok denotes, for ALL arguments of the
    parameter types, the Go operator named by its method at its kind (Model.spec_of_shape). *)
 From Coq Require Import ZArith List Bool Lia.
-From Verif Require Import Common.GoInt Common.GoStr GoLite.Syntax GoLite.Sem C34.Model.
+From Verif Require Import Common.GoInt Common.GoStr GoLite.Syntax GoLite.Sem GoLite.Templates C34.Model.
 Import ListNotations.
 Open Scope Z_scope.
 
@@ -19,108 +19,10 @@ Section P.
   Notation go_binop := (go_binop F fbin fcmp).
   Notation go_unop := (go_unop F fun1).
   Notation spec_of_shape := (spec_of_shape F fbin fcmp fun1 fpart).
-
-  Lemma has_ty_inv k (v : value) : has_ty F (TK k) v = true ->
-    (k = GBool /\ exists b, v = VBool b) \/ (k = GString /\ exists s, v = VStr s) \/
-    (exists z, v = VInt k z /\ is_integer k = true) \/
-    (exists f, v = VFlt k f /\ (is_float k || is_complex k) = true).
-  Proof.
-    destruct v; simpl; intros H; try discriminate.
-    - left. apply gokind_beq_eq in H. eauto.
-    - right. right. left. apply andb_true_iff in H as [H1 H2]. apply gokind_beq_eq in H1. subst. eauto.
-    - right. left. apply gokind_beq_eq in H. eauto.
-    - right. right. right. apply andb_true_iff in H as [H1 H2]. apply gokind_beq_eq in H1. subst. eauto.
-  Qed.
-
-  Definition is_shift (op : binop) := match op with Shl | Shr => true | _ => false end.
-
-  (* the evaluator's dynamically dispatched operator is the Go operator of kind k on operands of kind k *)
-  Lemma binop_val_spec k op (a b : value) : is_shift op = false ->
-    has_ty F (TK k) a = true -> has_ty F (TK k) b = true -> binop_val op a b = go_binop k op a b.
-  Proof.
-    intros Hs Ha Hb.
-    destruct (has_ty_inv _ _ Ha) as [[-> [x ->]]|[[-> [x ->]]|[[x [-> Hx]]|[x [-> Hx]]]]];
-    destruct (has_ty_inv _ _ Hb) as [[E [y ->]]|[[E [y ->]]|[[y [-> Hy]]|[y [-> Hy]]]]]; try discriminate;
-      try (subst; discriminate); try (destruct k; discriminate).
-    - destruct op; try discriminate; reflexivity.
-    - destruct op; try discriminate; reflexivity.
-    - unfold Sem.binop_val, Sem.go_binop. rewrite !gokind_beq_refl. destruct op; try discriminate; reflexivity.
-    - unfold Sem.binop_val, Sem.go_binop. rewrite !gokind_beq_refl. destruct op; try discriminate; reflexivity.
-  Qed.
-
-  Lemma shift_val_spec k op (a c : value) : is_shift op = true ->
-    has_ty F (TK k) a = true -> has_ty F (TK GUint8) c = true -> binop_val op a c = go_shift F k op a c.
-  Proof.
-    intros Hs Ha Hc.
-    destruct (has_ty_inv _ _ Hc) as [[E _]|[[E _]|[[n [-> Hn]]|[y [-> Hy]]]]]; try discriminate.
-    destruct (has_ty_inv _ _ Ha) as [[-> [x ->]]|[[-> [x ->]]|[[x [-> Hx]]|[x [-> Hx]]]]];
-      destruct op; try discriminate; simpl; try reflexivity; rewrite gokind_beq_refl; reflexivity.
-  Qed.
-
-  (* results of operators are typed values: the implicit conversion at return leaves them alone *)
-  Lemma coerce_typed t (v : value) : (forall z, v <> VUntyped z) -> coerce F t v = Ok v.
-  Proof. destruct v; intros H; try reflexivity. exfalso. eapply H. reflexivity. Qed.
-
-  Lemma arith_typed k op x y (v : value) : arith F k op x y = Ok v -> forall z, v <> VUntyped z.
-  Proof.
-    unfold arith. destruct (ik_of k); [|discriminate].
-    destruct op; try discriminate; try (intros [= <-]; discriminate);
-      match goal with |- context[match ?q with _ => _ end] => destruct q end; try discriminate; intros [= <-]; discriminate.
-  Qed.
-  Lemma shift_typed k op x sg n (v : value) : shift F k op x sg n = Ok v -> forall z, v <> VUntyped z.
-  Proof.
-    unfold shift. destruct (ik_of k); [|discriminate]. destruct (sg && (n <? 0)); [discriminate|].
-    destruct op; try discriminate; intros [= <-]; discriminate.
-  Qed.
-  Lemma go_binop_typed k op a b (v : value) : go_binop k op a b = Ok v -> forall z, v <> VUntyped z.
-  Proof.
-    unfold Sem.go_binop. destruct a; try discriminate; destruct b; try discriminate.
-    - destruct k; try discriminate. destruct op; try discriminate; intros [= <-]; discriminate.
-    - destruct (gokind_beq k0 k && gokind_beq k1 k); [|discriminate]. apply arith_typed.
-    - destruct k; try discriminate. destruct op; try discriminate; intros [= <-]; discriminate.
-    - destruct (gokind_beq k0 k && gokind_beq k1 k); [|discriminate].
-      unfold flt_binop. destruct (is_farith op); [intros [= <-]; discriminate|].
-      destruct (is_complex k); [destruct op; try discriminate; intros [= <-]; discriminate|].
-      destruct (is_cmp op); [intros [= <-]; discriminate|discriminate].
-  Qed.
-  Lemma go_shift_typed k op a c (v : value) : go_shift F k op a c = Ok v -> forall z, v <> VUntyped z.
-  Proof.
-    unfold go_shift. destruct a; try discriminate; destruct c; try discriminate.
-    destruct (gokind_beq k0 k && is_integer k1); [|discriminate]. apply shift_typed.
-  Qed.
-
+  Notation pack := (pack F).
   Opaque has_ty.
   Arguments Sem.binop_val : simpl never.
   Arguments Sem.go_binop : simpl never.
-
-  Definition pack (s : state F) (r : res value) : res (list value * state F) :=
-    match r with Ok v => Ok ([v], s) | Panic p => Panic p | Stuck => Stuck | OutOfFuel => OutOfFuel end.
-
-  Lemma bind_params1 x1 t1 (args : list value) le :
-    bind_params F [(x1, t1)] args = Some le ->
-    exists a, args = [a] /\ le = [(x1, a)] /\ has_ty F t1 a = true.
-  Proof.
-    destruct args as [|a [|b r]]; simpl; try discriminate;
-      repeat (match goal with |- context[if ?x then _ else _] => destruct x eqn:? end; try discriminate).
-    intros [= <-]. exists a. auto.
-  Qed.
-  Lemma bind_params2 x1 t1 x2 t2 (args : list value) le :
-    bind_params F [(x1, t1); (x2, t2)] args = Some le ->
-    exists a b, args = [a; b] /\ le = [(x1, a); (x2, b)] /\ has_ty F t1 a = true /\ has_ty F t2 b = true.
-  Proof.
-    destruct args as [|a [|b [|c r]]]; simpl; try discriminate;
-      repeat (match goal with |- context[if ?x then _ else _] => destruct x eqn:? end; try discriminate).
-    intros [= <-]. exists a, b. auto.
-  Qed.
-  Lemma bind_params3 x1 t1 x2 t2 x3 t3 (args : list value) le :
-    bind_params F [(x1, t1); (x2, t2); (x3, t3)] args = Some le ->
-    exists a b c, args = [a; b; c] /\ le = [(x1, a); (x2, b); (x3, c)] /\
-                  has_ty F t1 a = true /\ has_ty F t2 b = true /\ has_ty F t3 c = true.
-  Proof.
-    destruct args as [|a [|b [|c [|d r]]]]; simpl; try discriminate;
-      repeat (match goal with |- context[if ?x then _ else _] => destruct x eqn:? end; try discriminate).
-    intros [= <-]. exists a, b, c. auto.
-  Qed.
 
   Ltac finish_ok H lem := simpl; rewrite coerce_typed by (eapply lem; exact H); reflexivity.
 
@@ -131,7 +33,7 @@ Section P.
     intros Hs Hb. apply bind_params3 in Hb as (z & a & b & -> & -> & Hz & Ha & Hb).
     unfold Sem.denote. simpl. rewrite Hz, Ha, Hb. simpl. unfold bind, ret, lift. simpl.
     rewrite (binop_val_spec k) by assumption.
-    destruct (go_binop k op a b) eqn:E; try reflexivity. finish_ok E go_binop_typed.
+    destruct (go_binop k op a b) eqn:E; try reflexivity. finish_ok E @go_binop_typed.
   Qed.
 
   Lemma sound_rel k op args le s : is_shift op = false ->
@@ -141,7 +43,7 @@ Section P.
     intros Hs Hb. apply bind_params2 in Hb as (a & b & -> & -> & Ha & Hb).
     unfold Sem.denote. simpl. rewrite Ha, Hb. simpl. unfold bind, ret, lift. simpl.
     rewrite (binop_val_spec k) by assumption.
-    destruct (go_binop k op a b) eqn:E; try reflexivity. finish_ok E go_binop_typed.
+    destruct (go_binop k op a b) eqn:E; try reflexivity. finish_ok E @go_binop_typed.
   Qed.
 
   Lemma sound_shift k op args le s : is_shift op = true ->
@@ -151,7 +53,7 @@ Section P.
     intros Hs Hb. apply bind_params3 in Hb as (z & a & b & -> & -> & Hz & Ha & Hb).
     unfold Sem.denote. simpl. rewrite Hz, Ha, Hb. simpl. unfold bind, ret, lift. simpl.
     rewrite (shift_val_spec k) by assumption.
-    destruct (go_shift F k op a b) eqn:E; try reflexivity. finish_ok E go_shift_typed.
+    destruct (go_shift F k op a b) eqn:E; try reflexivity. finish_ok E @go_shift_typed.
   Qed.
 
   Lemma sound_un k op args le s :
